@@ -220,13 +220,15 @@ func (s *Server) closeSessions() {
 	}
 }
 
-func (s *Server) conn() *coapNet.UDPConn {
+// conn waits until the server serves a connection, the server is stopped or ctx ends.
+func (s *Server) conn(ctx context.Context) *coapNet.UDPConn {
 	s.listenMutex.Lock()
 	serverStartedChan := s.serverStartedChan
 	s.listenMutex.Unlock()
 	select {
 	case <-serverStartedChan:
 	case <-s.ctx.Done():
+	case <-ctx.Done():
 	}
 	s.listenMutex.Lock()
 	defer s.listenMutex.Unlock()
